@@ -1,7 +1,205 @@
 package main
 
-// tryReplay turns a solver model into a concrete test of the real function.
-// Returns true when the failure is confirmed on the real code.
+import (
+	"context"
+	"encoding/json"
+	"fmt"
+	"os"
+	"os/exec"
+	"path/filepath"
+	"strings"
+	"time"
+)
+
+// Counterexample search on the real code.
+//
+// The solvers never hand back a model for a failed obligation here: every query
+// carries the quantified axioms of the heap model, so a goal that does not hold
+// comes back "unknown", not "sat".  A failed obligation therefore has no solver
+// counterexample to replay.  What can be done instead is to look for a concrete
+// failing input directly: for functions with an input/output reading of the
+// property there is a hand-written *driver* under /verif/replay_drivers - an
+// in-package Go test that runs the REAL function (injected with `go test
+// -overlay`, nothing is written to /repo) on a deterministic stream of small
+// inputs and checks the clause's meaning with an independent oracle written from
+// the property statement.  When a driver finds an input on which the real code
+// breaks the clause, the violation is reported with that input; otherwise the
+// violation is still reported, ending in no-failing-input-found.  Drivers are
+// only consulted AFTER an obligation failed; they never decide a property.
+
+type replayDriver struct {
+	// Match: prefix of the obligation name (the function's display name), e.g.
+	// "egress.Refuse#"
+	Match []string `json:"match"`
+	Pkg   string   `json:"pkg"`  // package pattern relative to /repo, e.g. ./pkg/plugin/processor/egress
+	File  string   `json:"file"` // driver source under /verif/replay_drivers
+	Test  string   `json:"test"` // test function name
+	Note  string   `json:"note,omitempty"`
+}
+
+func loadDrivers(verifDir string) []replayDriver {
+	b, err := os.ReadFile(filepath.Join(verifDir, "replay_drivers", "index.json"))
+	if err != nil {
+		return nil
+	}
+	var idx struct {
+		Drivers []replayDriver `json:"drivers"`
+	}
+	if json.Unmarshal(b, &idx) != nil {
+		return nil
+	}
+	return idx.Drivers
+}
+
+func findDriver(verifDir, obligation string) *replayDriver {
+	for _, d := range loadDrivers(verifDir) {
+		for _, m := range d.Match {
+			if strings.HasPrefix(obligation, m) {
+				dd := d
+				return &dd
+			}
+		}
+	}
+	return nil
+}
+
+// runDriver runs a driver against the real code.  input == "" searches; otherwise
+// the recorded input is re-run.  Returns the driver's report (nil if it found
+// nothing) and a transcript.
+func runDriver(repo, verifDir string, d *replayDriver, obligation, input string, seed int, budgetS int) (map[string]any, string) {
+	src := filepath.Join(verifDir, "replay_drivers", d.File)
+	if _, err := os.Stat(src); err != nil {
+		return nil, "driver source missing: " + src
+	}
+	scratch, err := os.MkdirTemp("/var/tmp", "verif-replay-")
+	if err != nil {
+		return nil, err.Error()
+	}
+	defer os.RemoveAll(scratch)
+	pkgDir := filepath.Join(repo, strings.TrimPrefix(d.Pkg, "./"))
+	target := filepath.Join(pkgDir, "zz_verif_replay_test.go")
+	ov := map[string]any{"Replace": map[string]string{target: src}}
+	ob, _ := json.Marshal(ov)
+	ovPath := filepath.Join(scratch, "overlay.json")
+	os.WriteFile(ovPath, ob, 0o644)
+	outPath := filepath.Join(scratch, "found.json")
+	ctx, cancel := context.WithTimeout(context.Background(), time.Duration(budgetS+120)*time.Second)
+	defer cancel()
+	cmd := exec.CommandContext(ctx, "go", "test", "-overlay", ovPath, "-vet=off", "-count=1",
+		"-timeout", fmt.Sprintf("%ds", budgetS+60), "-run", "^"+d.Test+"$", d.Pkg)
+	cmd.Dir = repo
+	cmd.Env = append(goEnv(),
+		"VERIF_REPLAY_OUT="+outPath,
+		"VERIF_REPLAY_OBLIGATION="+obligation,
+		"VERIF_REPLAY_INPUT="+input,
+		fmt.Sprintf("VERIF_REPLAY_SEED=%d", seed),
+		fmt.Sprintf("VERIF_REPLAY_BUDGET_S=%d", budgetS))
+	out, _ := cmd.CombinedOutput()
+	transcript := trunc(string(out), 6000)
+	b, err := os.ReadFile(outPath)
+	if err != nil {
+		return nil, transcript
+	}
+	var rep map[string]any
+	if json.Unmarshal(b, &rep) != nil {
+		return nil, transcript
+	}
+	return rep, transcript
+}
+
+type driverResult struct {
+	rep        map[string]any
+	transcript string
+}
+
+var driverCache = map[string]driverResult{}
+
+// tryReplay looks for a concrete failing input with the function's driver.
 func tryReplay(e *Engine, f *failure, rec map[string]any) bool {
-	return false
+	d := findDriver(e.verifDir, f.Name)
+	if d == nil {
+		return false
+	}
+	seed := 1
+	fmt.Sscanf(os.Getenv("VERIF_SEED"), "%d", &seed)
+	// one search per driver and run: several obligations of one function share it
+	key := d.File + "|" + d.Test
+	cached, ok := driverCache[key]
+	if !ok {
+		r, t := runDriver(e.repo, e.verifDir, d, f.Name, "", seed, 20)
+		cached = driverResult{r, t}
+		driverCache[key] = cached
+	}
+	rep, transcript := cached.rep, cached.transcript
+	info := map[string]any{"attempted": true, "driver": d.File, "test": d.Test, "package": d.Pkg, "seed": seed}
+	if rep == nil {
+		info["found"] = false
+		info["why"] = "the driver ran the real function on its stream of small inputs and found none that breaks the clause"
+		info["transcript_tail"] = lastLines(transcript, 12)
+		rec["replay"] = info
+		return false
+	}
+	info["found"] = true
+	info["failing_input"] = rep["input"]
+	info["observed"] = rep["observed"]
+	info["expected"] = rep["expected"]
+	info["clause"] = rep["clause"]
+	ib, _ := json.Marshal(rep["input"])
+	info["rerun"] = "./check --replay <this file>   (re-runs " + d.Test + " in " + d.Pkg + " on the recorded input)"
+	info["input_json"] = string(ib)
+	info["transcript_tail"] = lastLines(transcript, 12)
+	rec["replay"] = info
+	return true
+}
+
+func lastLines(s string, n int) string {
+	l := strings.Split(strings.TrimRight(s, "\n"), "\n")
+	if len(l) > n {
+		l = l[len(l)-n:]
+	}
+	return strings.Join(l, "\n")
+}
+
+// cmdReplay: ./check --replay <path>: re-run the recorded failing input of a
+// replay file on the current tree.  Exit 1 when the real code still fails on it.
+func cmdReplay(args []string) {
+	if len(args) != 1 {
+		fmt.Fprintln(os.Stderr, "usage: gocv replay <replay.json>")
+		os.Exit(2)
+	}
+	b, err := os.ReadFile(args[0])
+	if err != nil {
+		fmt.Fprintln(os.Stderr, "gocv:", err)
+		os.Exit(2)
+	}
+	var rec map[string]any
+	if err := json.Unmarshal(b, &rec); err != nil {
+		fmt.Fprintln(os.Stderr, "gocv:", err)
+		os.Exit(2)
+	}
+	fmt.Printf("obligation: %v\nclause: %v\nat: %v\nsolver: %v (%v)\n", rec["obligation"], rec["clause"], rec["at"], rec["solver"], rec["solver_status"])
+	rp, _ := rec["replay"].(map[string]any)
+	if rp == nil || rp["found"] != true {
+		fmt.Println("this violation has no recorded failing input (no-failing-input-found); the failed obligation and the solver's output are in the file")
+		if sf, ok := rec["smt_file"].(string); ok {
+			fmt.Println("query:", sf)
+		}
+		os.Exit(0)
+	}
+	verifDir := envOr("VERIF_DIR", "/verif")
+	repo := envOr("VERIF_REPO", "/repo")
+	d := findDriver(verifDir, fmt.Sprint(rec["obligation"]))
+	if d == nil {
+		fmt.Println("no driver for this obligation any more")
+		os.Exit(2)
+	}
+	input, _ := rp["input_json"].(string)
+	rep, transcript := runDriver(repo, verifDir, d, fmt.Sprint(rec["obligation"]), input, 1, 20)
+	fmt.Println(lastLines(transcript, 20))
+	if rep != nil {
+		fmt.Printf("REPRODUCED on the current tree: input %v\n  observed: %v\n  expected: %v\n", rep["input"], rep["observed"], rep["expected"])
+		os.Exit(1)
+	}
+	fmt.Println("not reproduced on the current tree")
+	os.Exit(0)
 }
